@@ -49,6 +49,10 @@ SigClasses(k, a) ==
     S("flipbit", a, k) @@ [where |-> "first"], S("flipbit", a, k) @@ [where |-> "last"], S("flipbit", a, k) @@ [where |-> "any"],
     S("trunc", a, k) @@ [n |-> 1], S("trunc", a, k) @@ [n |-> 2], S("extend", a, k) @@ [n |-> 1, zero |-> 0], S("extend", a, k) @@ [n |-> 1, zero |-> 1],
     S("extend", a, k) @@ [n |-> 3, zero |-> 0],
+    \* the genuine signature TEXT followed by more characters of the alphabet: by 1, 4, and by multiples of 256 (a length
+    \* kept in eight bits), a comparison that stops at the shorter string
+    S("textext", a, k) @@ [tn |-> 1], S("textext", a, k) @@ [tn |-> 4], S("textext", a, k) @@ [tn |-> 255], S("textext", a, k) @@ [tn |-> 256],
+    S("textext", a, k) @@ [tn |-> 512], S("textext", a, k) @@ [tn |-> 1024], S("textext", a, k) @@ [tn |-> 65536],
     Over(S("valid", a, k), "hdronly"), Over(S("valid", a, k), "payonly"), Over(S("valid", a, k), "trailingdot"),
     Over(S("valid", a, k), "swapped"), Over(S("valid", a, k), "other"), Over(S("valid", a, k), "decoded"),
     S("valid", a, OtherKey(k)), S("valid", Sibling(a), k) }
